@@ -360,6 +360,32 @@ int main(void)
 			add_slot(mt, 1, -1);
 			no_probe = 0;
 		}
+		else if (!strcmp(op, "elems") && drv_nw == 4) {
+			/* it elems <size> <count> : buffer iterator over an array of <count> elements of a basic type of
+			 * <size> bytes; the documented loop visits every element once */
+			static int ids[65];
+			size_t size, count, visited = 0;
+			MPT_STRUCT(array) a = MPT_ARRAY_INIT;
+			MPT_INTERFACE(metatype) *mt;
+			MPT_INTERFACE(iterator) *it = 0;
+			const char *stop = "cap";
+			if (drv_parse_nat(drv_w[2], &size) || drv_parse_nat(drv_w[3], &count) || size < 2 || size > 64 || !count || count > 64) { puts("bad-op"); continue; }
+			if (!ids[size] && (ids[size] = mpt_type_basic_add(size)) < 0) { ids[size] = 0; puts("R no-type | C - | I -"); continue; }
+			if (!mpt_array_append(&a, size * count, 0)) { puts("R append-failed | C - | I -"); continue; }
+			a._buf->_content_traits = mpt_type_traits(ids[size]);
+			mt = mpt_meta_buffer(&a);
+			mpt_array_clone(&a, 0);
+			if (!mt || MPT_metatype_convert(mt, MPT_ENUM(TypeIteratorPtr), &it) < 0 || !it) { if (mt) mt->_vptr->unref(mt); puts("R refused | C - | I -"); continue; }
+			while (visited <= count + 1) {
+				int r;
+				if (!it->_vptr->value(it)) { stop = "null"; break; }
+				++visited;
+				if ((r = it->_vptr->advance(it)) < 0) { stop = "err"; break; }
+				if (!r) { stop = "end"; break; }
+			}
+			mt->_vptr->unref(mt);
+			printf("R walk n=%zu stop=%s | C - | I -\n", visited, stop);
+		}
 		else if (!strcmp(op, "kwalk") && drv_nw == 3) {
 			/* the documented loop reading keys ('k') from a text iterator */
 			size_t cap, n = 0;
